@@ -975,7 +975,26 @@ func (c *c16LChan) StartPoint(ids []string) (StartPoint, error) { // Handle: Sta
 func (c *c16LChan) IsValidOffset(o Offset) bool { c.hook(4); return c.Channel.IsValidOffset(o) }
 func (c *c16LChan) NewReader(o Offset) (ChannelReader, error) {
 	c.hook(5)
-	rd, err := c.Channel.NewReader(o)
+	var rd ChannelReader
+	var err error
+	if sc, ok := c.Channel.(*StoreChannel); ok && c.ss != nil && c.ss.vcrc {
+		// the leader runs with channel.verifyCrc: true (a process-wide option: StoreChannel.NewReader reads it
+		// from the configuration; here per session): every segment its reader opens — the first one and each
+		// one it FOLLOWS INTO across a rotation, closed or still being written — goes through the CRC check first
+		// (stream readers only: the history oracle's snapshots carry no CRC64 footer, a verifying snapshot reader refuses them)
+		var sr *store.Reader
+		sr, err = sc.storer.GetReader(o.Offset, true)
+		if err == nil && sr.IsAof() {
+			rd = sr
+		} else {
+			if err == nil {
+				sr.Close()
+			}
+			rd, err = c.Channel.NewReader(o)
+		}
+	} else {
+		rd, err = c.Channel.NewReader(o)
+	}
 	if err == nil && c.ss != nil && c.ss.round.RelRead && rd.IsAof() {
 		return &c16LReader{ChannelReader: rd, ss: c.ss, off: o.Offset}, nil
 	}
@@ -1249,6 +1268,7 @@ type c16Sess struct {
 	xfers    int    // data transfers announced in this session (META answers to data requests)
 	w0       int    // writers the follower's channel had created when the session began
 	unsynced bool   // round.FStop: the follower did not open the writer of the announced transfer within the limit
+	vcrc     bool   // the leader's disk channel reads with verifyCrc on (3 of 4 sessions, by a hash of the round)
 }
 
 func (ss *c16Sess) hook(point int) {
@@ -1537,6 +1557,13 @@ func (x *c16Ctx) startSession(t *testing.T, srv *c16Server, bk string, logSize i
 		cut = 1 << 30
 	}
 	ss := &c16Sess{rt: rt, round: r, cut: cut, rnd: rnd, fch: fch, lright: -1, xright: -1}
+	if bk == "d" {
+		hv := uint64(logSize)
+		for _, b := range []byte(r.String()) {
+			hv = c16Mix(hv ^ uint64(b))
+		}
+		ss.vcrc = hv%4 != 0
+	}
 	if l0.D != nil {
 		ss.lright = l0.D.right()
 	}
@@ -2275,6 +2302,9 @@ func (x *c16Ctx) runCase(t *testing.T, srv *c16Server, c c16Case, src string) (u
 		}
 		// ---- coverage
 		s.Count("sessions")
+		if ss.vcrc {
+			s.Count("leader_verifycrc")
+		}
 		s.Count("bk_" + c.Bk)
 		s.Count("src_" + src)
 		s.Count("end_" + res.stage + "_" + res.cls)
